@@ -364,6 +364,68 @@ class Engine:
     candidates: Callable[[dict], Iterable[dict]]  # shrink candidates
 
 
+# --------------------------------------------------------------------------------------
+# fork isolation: one run = one child forked from a process that never ran the code under test
+# --------------------------------------------------------------------------------------
+def fork_call(fn: Callable[..., Any], *args: Any) -> Any:
+    """Run ``fn(*args)`` in a forked child and return its (picklable) result.  Module-level
+    state of the code under test - wherever it hides: module dicts, decorator closures,
+    lazily created locks - is pristine for every run, because the parent never runs it."""
+    import pickle
+
+    r, w = os.pipe()
+    pid = os.fork()
+    if pid == 0:
+        os.close(r)
+        try:
+            try:
+                out = ("ok", fn(*args))
+            except HarnessError as e:
+                out = ("harness", str(e)[-4000:])
+            except BaseException as e:  # pylint: disable=broad-except
+                out = ("err", "".join(traceback.format_exception(e))[-4000:])
+            with os.fdopen(w, "wb") as f:
+                pickle.dump(out, f, protocol=pickle.HIGHEST_PROTOCOL)
+        finally:
+            os._exit(0)  # pylint: disable=protected-access
+    os.close(w)
+    with os.fdopen(r, "rb") as f:
+        buf = f.read()
+    os.waitpid(pid, 0)
+    if not buf:
+        raise HarnessError("forked child died without a result")
+    status, val = pickle.loads(buf)
+    if status == "harness":
+        raise HarnessError(val)
+    if status != "ok":
+        raise HarnessError(f"forked child failed:\n{val}")
+    return val
+
+
+def outcome_to_dict(o: Outcome) -> dict:
+    return {
+        "violation": None if o.violation is None else o.violation.as_dict(),
+        "digest": o.digest,
+        "schedule": o.schedule,
+        "faults": o.faults,
+        "stats": o.stats,
+        "cls": o.cls,
+        "nontrivial": o.nontrivial,
+        "sample": jsonable(o.sample),
+        "steps": o.steps,
+        "sim_time": o.sim_time,
+    }
+
+
+def outcome_from_dict(d: dict) -> Outcome:
+    vd = d["violation"]
+    v = None if vd is None else Violation(vd["property"], vd["oracle"], vd["sig"], vd["detail"])
+    o = Outcome(v, d["digest"], None, stats=d["stats"], cls=d["cls"], nontrivial=d["nontrivial"], sample=d["sample"], steps=d["steps"], sim_time=d["sim_time"])
+    o.schedule = [_tup(e) for e in d["schedule"]]
+    o.faults = [_tup(f) for f in d["faults"]]
+    return o
+
+
 def execute_generate(engine: Any, record: dict, seed: int) -> Outcome:
     return engine.execute(record, random.Random(H("exec", seed)))
 
